@@ -6,6 +6,10 @@ provider built by srv.make_server, with
   * a single-fault matrix over the metadata checks (each check violated alone),
   * random histories of 2-30 registrations with client-id supply collisions, refusals, exceptions,
   * all token x client_id pairings (plus bogus / missing credentials, expiry) at the read endpoint,
+  * providers whose *_supported lists are RESTRICTED (subsets of the library's defaults: encryption on with leave-one-out /
+    singleton / GCM-only / CBC-only enc lists for all three pairs, single signing algorithms with and without "none",
+    restricted response / grant / subject types, auth methods, response modes, acr values) and requests inside / outside the
+    lists, alg without enc, enc without alg, half-supported pairs,
 and the real Registration.verify_redirect_uris / urlsplit / split_uri / comb_uri on a large URI product.
 The Gallina model (Model/Registration.v, Model/RegUri.v) is evaluated on the same inputs by vm_compute
 (chk_trace, chk_cell, chk_urlsplit, chk_split_uri, chk_comb).  Separately the property oracle below
@@ -25,7 +29,17 @@ RULE = ("(a) endpoint matrix: 5 scheme forms x 4 host classes (public, localhost
         "(c) random histories of 2-30 registrations (metadata inside/outside provider support, client-id supply "
         "colliding with existing ids, refusals, exceptions) followed by all token x client_id pairings at the read "
         "endpoint incl. bogus/missing credentials and secret expiry; (d) the real verify_redirect_uris / urlsplit / "
-        "split_uri / comb_uri on a sampled product of 10 schemes x 12 hosts x ports x paths x queries x fragments. "
+        "split_uri / comb_uri on a sampled product of 10 schemes x 12 hosts x ports x paths x queries x fragments; "
+        "(e) providers with RESTRICTED *_supported lists drawn from the library's defaults: for the three (alg, enc) pairs "
+        "leave-one-out (every enc value missing once, for every pair) and singleton lists x 8 request shapes per pair (alg "
+        "only = default enc path, supported alg + unsupported enc, supported pair, unsupported alg + supported enc, both "
+        "unsupported, unsupported alg only, enc only, enc outside the universe); single / partial signing-algorithm lists "
+        "with and without none x {inside, outside, none, unknown} for the four signing parameters; restricted response / "
+        "grant / subject types, auth methods, response modes, acr values x {inside, outside, mixed, all outside}; random "
+        "providers (encryption off / full / GCM-only / CBC-only / random subsets) x random negotiated requests, each followed "
+        "by reads.  Oracle for (e): every value stored, echoed and returned by the read endpoint for a parameter that has a "
+        "list in the LIVE provider_info is a member of that list (parameter -> list table written from the OIDC "
+        "registration / discovery specifications). "
         "A case is non-trivial when it reaches the redirect-URI decision or changes / must not change the client database.")
 ASSUMPTIONS = [
     "rndstr(32) registration tokens and secret() client secrets never repeat (the supply is fresh); client ids need no such "
@@ -93,13 +107,16 @@ def jsonable(v):
 class Rig:
     """One real provider + controlled supply, clock and snapshots."""
 
-    def __init__(self, rng, clock, **kw):
+    def __init__(self, rng, clock, caps=None, **kw):
         import srv
         import idpyoidc.server.oidc.registration as R
         self.R = R
         self.rng = rng
         self.clock = clock
-        extra = {"capabilities": {"response_types_supported": RT_SUPPORTED}}
+        # caps: provider configuration of the *_supported lists (restricted providers, section (e)); the default is
+        # the library's full lists with every response type
+        extra = {"capabilities": dict({"response_types_supported": RT_SUPPORTED}, **(caps or {}))}
+        self.caps = dict(caps or {})
         self.server = srv.make_server(extra=extra, **kw)
         self.reg = self.server.get_endpoint("registration")
         self.rd = self.server.get_endpoint("registration_read")
@@ -316,6 +333,45 @@ def same_uri(echoed, stored_entry):
     return echoed.split("?", 1)[0] == base and parse_qs(p.query) == {k: list(v) for k, v in q.items()} and not p.fragment
 
 
+# registration parameter -> the discovery parameter that lists what the provider supports for it.  Written from OpenID
+# Connect Dynamic Client Registration 1.0 section 2 / Discovery 1.0 section 3 (NOT read from the library's own table).
+PARAM2SUPPORTED = {
+    "request_object_signing_alg": "request_object_signing_alg_values_supported",
+    "request_object_encryption_alg": "request_object_encryption_alg_values_supported",
+    "request_object_encryption_enc": "request_object_encryption_enc_values_supported",
+    "userinfo_signed_response_alg": "userinfo_signing_alg_values_supported",
+    "userinfo_encrypted_response_alg": "userinfo_encryption_alg_values_supported",
+    "userinfo_encrypted_response_enc": "userinfo_encryption_enc_values_supported",
+    "id_token_signed_response_alg": "id_token_signing_alg_values_supported",
+    "id_token_encrypted_response_alg": "id_token_encryption_alg_values_supported",
+    "id_token_encrypted_response_enc": "id_token_encryption_enc_values_supported",
+    "token_endpoint_auth_method": "token_endpoint_auth_methods_supported",
+    "token_endpoint_auth_signing_alg": "token_endpoint_auth_signing_alg_values_supported",
+    "subject_type": "subject_types_supported",
+    "response_types": "response_types_supported",
+    "response_modes": "response_modes_supported",
+    "grant_types": "grant_types_supported",
+    "default_acr_values": "acr_values_supported",
+}
+
+
+def outside_lists(provider_info, record):
+    """[(parameter, value, discovery key, list)] for every value of `record` that has a provider-side list in the
+    provider information AS IT IS NOW on the live object and is not a member of it."""
+    bad = []
+    for param, skey in PARAM2SUPPORTED.items():
+        if param not in record or skey not in provider_info:
+            continue
+        sup = provider_info[skey]
+        sup = list(sup) if isinstance(sup, (list, tuple)) else [sup]
+        val = record[param]
+        for x in (val if isinstance(val, list) else [val]):
+            if x not in sup:
+                bad.append((param, val, skey, sup))
+                break
+    return bad
+
+
 class Oracle:
     def __init__(self, ctx, rig):
         self.ctx, self.rig = ctx, rig
@@ -377,6 +433,14 @@ class Oracle:
                 vals = val if isinstance(val, list) else [val]
                 if any(x not in sup for x in vals):
                     self.v("unsupported-metadata-stored", "client %s stored %s=%r outside provider support %r" % (cid, claim, val, sup), rec)
+        # the same rule on all three views, against the lists the live provider advertises right now: what is stored,
+        # what is echoed (and, in read(), what the read endpoint returns) for a parameter that has a provider-side list
+        # is a member of that list or absent
+        live = jsonable(dict(rig.ctx.provider_info))
+        for view, record in (("stored", stored), ("echoed", resp)):
+            for param, val, skey, sup in outside_lists(live, record):
+                self.v("unsupported-metadata-" + view, "client %s: %s %s=%r is not in %s=%r (request had %r)"
+                       % (cid, view, param, val, skey, sup, body.get(param)), rec)
         if stored.get("application_type") not in (None, "web", "native") or stored.get("subject_type") not in (None, "public", "pairwise"):
             self.v("unsupported-metadata-stored", "client %s stored application_type/subject_type %r/%r" % (cid, stored.get("application_type"), stored.get("subject_type")), rec)
         # --- provider-assigned values are the provider's: fresh secret, the issued token, ...
@@ -438,6 +502,9 @@ class Oracle:
                 want = self.responses.get(owner)
                 if want is not None and ob["resp"] != want:
                     self.v("read-echo-mismatch", "read of %s returned %r, registered %r" % (owner, ob["resp"], want), rec)
+            for param, val, skey, sup in outside_lists(jsonable(dict(self.rig.ctx.provider_info)), ob["resp"]):
+                self.v("unsupported-metadata-read", "read endpoint returned %s=%r for client %r, not in %s=%r"
+                       % (param, val, ob["cid"], skey, sup), rec)
         else:
             if owner is not None and owner == cid:
                 exp = (before["cdb"].get(owner) or {}).get("client_secret_expires_at", 0)
@@ -472,6 +539,13 @@ class Trace:
         self.accepted = 0
         self.tokens = []        # (token, cid)
 
+    def case_rec(self):
+        """what a violation is reported with: the provider's configured lists (when restricted) + the last operations"""
+        r = {"trace": self.rec["ops"][-6:]}
+        if self.rig.caps:
+            r["provider_capabilities"] = self.rig.caps
+        return r
+
     def register(self, body, plan_ids=None, model=True):
         rig = self.rig
         rig.plan16 = list(plan_ids or [])
@@ -484,7 +558,7 @@ class Trace:
         r = {"op": "register", "body": body, "out": {k: v for k, v in ob.items() if k != "draws"}, "now": now}
         self.rec["ops"].append(r)
         self.ctx.count("reg:" + ob["kind"] + (":" + ob["code"] if ob.get("code") else ""))
-        self.oracle.registration(body, ob, before, after, now, {"trace": self.rec["ops"][-6:]})
+        self.oracle.registration(body, ob, before, after, now, self.case_rec())
         if ob["kind"] == "accepted":
             self.accepted += 1
             if ob["resp"].get("registration_access_token"):
@@ -520,7 +594,7 @@ class Trace:
         after = rig.snap()
         self.rec["ops"].append({"op": "read", "hdr": hdr, "cid": cid, "out": ob, "now": now})
         self.ctx.count("read:" + (ob["kind"] if ob["kind"] == "answer" else ob["exc"]))
-        self.oracle.read(hdr, cid, ob, before, after, now, {"trace": self.rec["ops"][-6:]})
+        self.oracle.read(hdr, cid, ob, before, after, now, self.case_rec())
         if not self.modelled:
             return ob
         op = "(OpRead %s %s %s)" % (coq_opt(hdr, coq_str, "pystr"), coq_opt(cid, coq_str, "pystr"), coq_z(now))
@@ -667,9 +741,11 @@ def random_body(rng):
     return body
 
 
-def read_matrix(tr, rng, limit=None):
-    """all token x client_id pairings + bogus / missing credentials"""
+def read_matrix(tr, rng, limit=None, own_limit=None):
+    """all token x client_id pairings + bogus / missing credentials (own_limit: of at most that many of the clients)"""
     toks = list(tr.tokens)
+    if own_limit is not None and len(toks) > own_limit:
+        toks = rng.sample(toks, own_limit)
     cids = [c for _, c in toks] + ["client_1", "nobody"]
     hdrs = ["Bearer " + t for t, _ in toks] + ["Bearer bogus-token", "Basic Zm9vOmJhcg==", None]
     pairs = [(h, c) for h in hdrs for c in cids + [None]]
@@ -679,6 +755,277 @@ def read_matrix(tr, rng, limit=None):
         pairs = own + rng.sample(rest, min(len(rest), max(0, limit - len(own))))
     for h, c in pairs:
         tr.read(h, c)
+
+
+# ------------------------------------------------------------------------------------------ restricted providers
+# (e) negotiation against RESTRICTED provider lists.  The universe of each list is what the library itself supports (read
+# from a provider built with every feature switched on); a restricted provider advertises a subset of it; requests ask
+# for values inside the subset, outside it but inside the universe, and outside the universe.
+ENC_PAIRS = [("request_object_encryption", "encrypt_request_object_supported"),
+             ("id_token_encrypted_response", "encrypt_id_token_supported"),
+             ("userinfo_encrypted_response", "encrypt_userinfo_supported")]
+SIG_PARAMS = ["id_token_signed_response_alg", "userinfo_signed_response_alg", "request_object_signing_alg",
+              "token_endpoint_auth_signing_alg"]
+LIST_PARAMS = ["response_types", "grant_types", "response_modes", "default_acr_values"]       # arrays in the schema
+OTHER_UNIVERSE = {
+    "response_types_supported": RT_SUPPORTED,
+    "acr_values_supported": ["urn:acr:bronze", "urn:acr:silver", "urn:acr:gold"],
+    "grant_types_supported": ["implicit"],
+    "token_endpoint_auth_methods_supported": ["none", "tls_client_auth"],
+}
+
+
+def universe():
+    """discovery key -> every value the library supports for it (the real defaults, all features on)"""
+    import srv
+    caps = {flag: True for _, flag in ENC_PAIRS}
+    pi = srv.make_server(extra={"capabilities": caps}).context.provider_info
+    uni = {}
+    for skey in PARAM2SUPPORTED.values():
+        vals = list(pi.get(skey) or [])
+        for x in OTHER_UNIVERSE.get(skey, []):
+            if x not in vals:
+                vals.append(x)
+        uni[skey] = vals
+    for skey in uni:
+        if skey.endswith("signing_alg_values_supported") and not skey.startswith("token_endpoint"):
+            uni[skey] = uni[skey] + ["none"]
+    return uni
+
+
+def enc_keys(prefix):
+    """(alg discovery key, enc discovery key) of one encryption pair"""
+    return PARAM2SUPPORTED[prefix + "_alg"], PARAM2SUPPORTED[prefix + "_enc"]
+
+
+def enc_requests(prefix, uni, caps):
+    """the request shapes for one (alg, enc) pair on a provider whose lists are caps[...]: every combination of
+    {inside, outside, absent} halves + a value outside the universe"""
+    ak, ek = enc_keys(prefix)
+    algs_in, encs_in = caps[ak], caps[ek]
+    algs_out = [x for x in uni[ak] if x not in algs_in] or ["XX-ALG"]
+    encs_out = [x for x in uni[ek] if x not in encs_in] or ["XX-ENC"]
+    A, E = prefix + "_alg", prefix + "_enc"
+    return [
+        {A: algs_in[0]},                                   # alg only: verify() completes it with the default enc
+        {A: algs_in[-1], E: encs_out[0]},
+        {A: algs_in[0], E: encs_in[-1]},
+        {A: algs_out[0], E: encs_in[0]},
+        {A: algs_out[-1], E: encs_out[-1]},
+        {A: algs_out[0]},
+        {E: encs_in[0]},                                   # enc without alg: refused
+        {A: algs_in[0], E: "XX-ENC"},
+    ]
+
+
+def enc_designs(uni, quick):
+    """providers with encryption enabled and restricted lists: leave-one-out (every universe enc value is the missing one
+    once, for all three pairs at the same time, a different alg value missing per pair) and singletons (every universe
+    value is the only one for some pair; for every pair in the thorough tier)"""
+    n = max(len(uni[enc_keys(p)[1]]) for p, _ in ENC_PAIRS)
+    for kind, idx in (("leave-one-out", range(n)), ("singleton", range(0, n, 2) if quick else range(n))):
+        for i in idx:
+            caps = {}
+            for j, (prefix, flag) in enumerate(ENC_PAIRS):
+                ak, ek = enc_keys(prefix)
+                caps[flag] = True
+                if kind == "singleton":
+                    e, a = uni[ek][(i + j) % len(uni[ek])], uni[ak][(i + 3 * j) % len(uni[ak])]
+                    caps[ek], caps[ak] = [e], [a]
+                else:
+                    e, a = uni[ek][i % len(uni[ek])], uni[ak][(i + 3 * j) % len(uni[ak])]
+                    caps[ek], caps[ak] = [x for x in uni[ek] if x != e], [x for x in uni[ak] if x != a]
+            yield kind, caps
+
+
+def sig_designs(uni):
+    for i in range(4):
+        caps = {}
+        for j, param in enumerate(SIG_PARAMS):
+            skey = PARAM2SUPPORTED[param]
+            full = [x for x in uni[skey] if x != "none"]
+            one = full[(5 * i + 3 * j) % len(full)]
+            if i % 2 == 0:
+                caps[skey] = [one]                                       # a single algorithm, no "none"
+            else:
+                caps[skey] = [x for x in full if x != one][:: (j % 2) + 1]  # the rest (or every other one of it)
+            if "none" in uni[skey] and (i + j) % 3 == 0:
+                caps[skey] = caps[skey] + ["none"]
+        yield caps
+
+
+def sig_requests(uni, caps):
+    out = []
+    for param in SIG_PARAMS:
+        skey = PARAM2SUPPORTED[param]
+        ins = caps[skey]
+        outs = [x for x in uni[skey] if x not in ins and x != "none"]
+        for val in [ins[0], ins[-1], outs[0], outs[-1], "none", "XX999"]:
+            out.append({param: val})
+    return out
+
+
+def misc_designs(uni):
+    rt, gt = uni["response_types_supported"], uni["grant_types_supported"]
+    st, am = uni["subject_types_supported"], uni["token_endpoint_auth_methods_supported"]
+    rm, acr = uni["response_modes_supported"], uni["acr_values_supported"]
+    yield {"response_types_supported": ["code"], "grant_types_supported": gt[:1], "subject_types_supported": ["public"],
+           "token_endpoint_auth_methods_supported": am[:1], "response_modes_supported": rm[:1], "acr_values_supported": acr[:1]}
+    yield {"response_types_supported": ["id_token", "id_token token"], "grant_types_supported": gt[1:3],
+           "subject_types_supported": ["pairwise"], "token_endpoint_auth_methods_supported": am[-2:-1],
+           "response_modes_supported": rm[1:], "acr_values_supported": acr[1:]}
+    yield {"response_types_supported": rt[1:], "grant_types_supported": [gt[0], gt[-1]], "subject_types_supported": st[1:],
+           "token_endpoint_auth_methods_supported": am[1:3], "response_modes_supported": rm[-1:]}
+
+
+def misc_requests(uni, caps):
+    out = []
+    for param in ("subject_type", "token_endpoint_auth_method"):
+        skey = PARAM2SUPPORTED[param]
+        ins = caps.get(skey) or uni[skey]
+        outs = [x for x in uni[skey] if x not in ins] or ["XX"]
+        out += [{param: ins[0]}, {param: ins[-1]}, {param: outs[0]}, {param: outs[-1]}, {param: "XX"}]
+    for param in LIST_PARAMS:
+        skey = PARAM2SUPPORTED[param]
+        ins = caps.get(skey) or uni[skey]
+        outs = [x for x in uni[skey] if x not in ins] or ["XX"]
+        out += [{param: [ins[0]]}, {param: list(ins)}, {param: [outs[0]]}, {param: [outs[0], ins[-1]]},
+                {param: [ins[0], outs[-1], "XX", ins[0]]}, {param: list(outs)}, {param: ["XX"]}]
+    return out
+
+
+def inside_response_types(caps, rng=None):
+    """a response_types value the provider supports (so that the registration is decided on the parameter under test)"""
+    rts = caps.get("response_types_supported") or RT_SUPPORTED
+    return [rts[0] if rng is None else rng.choice(rts)]
+
+
+def with_base(extra, caps, n, rng=None):
+    body = {"redirect_uris": ["https://neg%d.example.com/cb" % n]}
+    if "response_types" not in extra and "code" not in (caps.get("response_types_supported") or RT_SUPPORTED):
+        body["response_types"] = inside_response_types(caps, rng)
+    body.update(extra)
+    return body
+
+
+def random_caps(rng, uni):
+    """a provider whose lists are random subsets of the universe; encryption per pair: off / full / restricted"""
+    caps = {}
+    for prefix, flag in ENC_PAIRS:
+        ak, ek = enc_keys(prefix)
+        r = rng.random()
+        if r < 0.15:
+            continue                                                    # not configured: no lists advertised
+        caps[flag] = True
+        if r < 0.25:
+            continue                                                    # enabled, the full lists
+        fam = rng.choice(["GCM", "CBC", None, None])
+        if fam:
+            caps[ek] = [x for x in uni[ek] if fam in x] or list(uni[ek])
+            if rng.random() < 0.5:
+                caps[ek] = rng.sample(caps[ek], rng.randint(1, len(caps[ek])))
+        else:
+            caps[ek] = rng.sample(uni[ek], rng.randint(1, len(uni[ek]) - 1))
+        if rng.random() < 0.7:
+            caps[ak] = rng.sample(uni[ak], rng.randint(1, len(uni[ak]) - 1))
+    for param in SIG_PARAMS + ["subject_type", "token_endpoint_auth_method"] + LIST_PARAMS:
+        skey = PARAM2SUPPORTED[param]
+        if rng.random() < 0.6:
+            u = uni[skey]
+            caps[skey] = rng.sample(u, rng.choice([1, 1, 2, 3, max(1, len(u) - 1)]) if len(u) > 1 else 1)
+            caps[skey] = caps[skey][:len(u)]
+    return caps
+
+
+def pick_value(rng, ins, uni_vals, p_in=0.45):
+    outs = [x for x in uni_vals if x not in ins]
+    r = rng.random()
+    if r < p_in and ins:
+        return rng.choice(ins)
+    if r < 0.93 and outs:
+        return rng.choice(outs)
+    return rng.choice(["XX", "XX", "none", ""])
+
+
+def negotiated_body(rng, live, uni, n):
+    """one registration against the lists of the live provider (`live` = its provider information)"""
+    extra = {}
+    for prefix, _ in ENC_PAIRS:
+        if rng.random() < 0.45:
+            ak, ek = enc_keys(prefix)
+            shape = rng.choice(["alg", "alg", "alg", "both", "both", "both", "both", "enc"])
+            if shape in ("alg", "both"):
+                extra[prefix + "_alg"] = pick_value(rng, live.get(ak) or [], uni[ak])
+            if shape in ("enc", "both"):
+                extra[prefix + "_enc"] = pick_value(rng, live.get(ek) or [], uni[ek])
+    for param in SIG_PARAMS + ["subject_type", "token_endpoint_auth_method"]:
+        if rng.random() < (0.12 if param == "subject_type" else 0.3):
+            skey = PARAM2SUPPORTED[param]
+            extra[param] = pick_value(rng, live.get(skey) or [], uni[skey])
+    for param in LIST_PARAMS:
+        if rng.random() < (0.5 if param == "response_types" else 0.25):
+            skey = PARAM2SUPPORTED[param]
+            extra[param] = [pick_value(rng, live.get(skey) or [], uni[skey], 0.75) for _ in range(rng.randint(1, 3))]
+    if rng.random() < 0.1:
+        extra["scope"] = "openid"
+    caps = {"response_types_supported": live.get("response_types_supported")}
+    body = with_base(extra, caps, n, rng if rng.random() < 0.85 else None)
+    if rng.random() < 0.1:
+        body.pop("response_types", None)                                # the schema default ["code"] is judged too
+    if rng.random() < 0.25:
+        body["application_type"] = "web"
+    return body
+
+
+def restricted_providers(ctx, rng, clock, traces):
+    uni = universe()
+    n = [0]
+
+    def run_on(caps, bodies, label, reads=12):
+        tr = Trace(ctx, rng, clock, caps=caps)
+        live = jsonable(dict(tr.rig.ctx.provider_info))
+        for skey, want in caps.items():
+            if isinstance(want, list) and live.get(skey) != want:
+                raise RuntimeError("provider does not advertise the configured %s=%r: %r" % (skey, want, live.get(skey)))
+        tr.rec["provider"] = {k: v for k, v in caps.items()}
+        for extra in bodies:
+            n[0] += 1
+            body = extra if "redirect_uris" in extra else with_base(extra, caps, n[0])
+            ob = tr.register(body)
+            ctx.count("restricted:%s:%s" % (label, ob["kind"]))
+            if ob["kind"] == "accepted":
+                kept = sum(1 for k in body if k in PARAM2SUPPORTED and k in ob["resp"])
+                dropped = sum(1 for k in body if k in PARAM2SUPPORTED and k not in ob["resp"])
+                ctx.count("restricted:negotiated-kept", kept)
+                ctx.count("restricted:negotiated-dropped", dropped)
+            clock.tick(1)
+        if tr.rig.rd is not None:
+            read_matrix(tr, rng, limit=reads, own_limit=(8 if ctx.quick else None))
+        tr.finish(traces, nontrivial=True)
+        return tr
+
+    for kind, caps in enc_designs(uni, ctx.quick):
+        bodies = []
+        for prefix, _ in ENC_PAIRS:
+            bodies += enc_requests(prefix, uni, caps)
+        run_on(caps, bodies, "enc-" + kind)
+    for caps in sig_designs(uni):
+        run_on(caps, sig_requests(uni, caps), "sig")
+    for caps in misc_designs(uni):
+        run_on(caps, misc_requests(uni, caps), "lists")
+    for i in range(14 if ctx.quick else 300):
+        caps = random_caps(rng, uni)
+        tr = Trace(ctx, rng, clock, caps=caps)
+        live = jsonable(dict(tr.rig.ctx.provider_info))
+        tr.rec["provider"] = caps
+        for j in range(rng.randint(6, 16)):
+            n[0] += 1
+            ob = tr.register(negotiated_body(rng, live, uni, n[0]))
+            ctx.count("restricted:random:" + ob["kind"])
+            clock.tick(rng.choice([0, 1, 60]))
+        if tr.rig.rd is not None:
+            read_matrix(tr, rng, limit=12)
+        tr.finish(traces, nontrivial=tr.accepted > 0)
 
 
 # ------------------------------------------------------------------------------------------ pure URI cases
@@ -847,6 +1194,8 @@ def run(ctx):
                     for t, c in tr.tokens[:3]:
                         tr.read("Bearer " + t, c)
             tr.finish(traces, nontrivial=tr.accepted > 0)
+        # (e) providers with restricted *_supported lists
+        restricted_providers(ctx, rng, clock, traces)
         imp = ["Lib.Base", "Lib.PyStr", "Lib.Urlenc", "Model.RegUri", "Model.Registration"]
         ctx.coq_check_cases(imp, "trace_case", "chk_trace", traces, shard=6, label="trace", diag="diag_trace")
         # (d) pure URI product
